@@ -113,6 +113,21 @@ def cases(tier, rng, schema, feats):
         for prefs in ([x], [x, "packed", "none"], ["packed", x, "none"], ["none", "packed", x], [x, x, "packed"]):
             out.append(f"C14.fmt.{n}\tdec2\t{mc([entry(-7, 'public-key')], prefs).hex()}")
             n += 1
+    # LONG lists: the two result slots filled first (same entry twice, or two different ones), then a run of dropped entries, then a
+    # known entry at a position on a bit-width boundary (7, 8, 15, 16, 31, 32, 63, 64, 65, 127, 128, 255, 256): position counters,
+    # bitmaps and shifts indexed by the wire position only misbehave there
+    kn_a = {"p": entry(-7, "public-key"), "q": entry(-8, "public-key"), "u": entry(-257, "public-key")}
+    kn_f = {"p": "packed", "q": "none", "u": "tpm"}
+    for pos in (7, 8, 15, 16, 31, 32, 63, 64, 65, 127, 128, 255, 256):
+        for head in ("pp", "pq", "qq", "qp", "p", ""):
+            for last in ("p", "q"):
+                shape = head + "u" * (pos - len(head)) + last
+                out.append(f"C14.long.{n}\tdec2\t{mc([kn_a[c] for c in shape]).hex()}")
+                n += 1
+                out.append(f"C14.long.{n}\tdec2\t{mc([kn_a['p']], [kn_f[c] for c in shape]).hex()}")
+                n += 1
+                out.append(f"C14.long.{n}\tdec2\t02{cbor.enc(cbor.M([(1, 'example.com'), (2, bytes(32)), (9, [kn_f[c] for c in shape])])).hex()}")
+                n += 1
     # encode side: GetInfo algorithms
     for algs in ([], [-7], [-8], [-7, -8], [-8, -7]):
         v = "{aaguid=b" + "00" * 16 + ";versions=[e:Fido2_0];algorithms=S([" + ",".join("{alg=i-%x}" % -a for a in algs) + "])}"
